@@ -33,7 +33,8 @@ ASSUMPTIONS = [
 ]
 
 NAN = float("nan")
-FUNCS = ["sum", "mean", "max", "min", "count", "var", "std", "prod", "first", "last", "median", "any", "all"]
+FUNCS = ["sum", "mean", "max", "min", "count", "var", "std", "prod", "first", "last", "median", "quantile", "quantile2", "any", "all"]
+QS = {"quantile": 0.5, "quantile2": [0.25, 0.75]}  # scalar q (no new dimension) and vector q (a new "quantile" dimension)
 SIZES = dict(x=3, y=2, t=2)
 
 
@@ -59,6 +60,8 @@ def shards(tier, seed):
             out.append(dict(leg="dataarray", dims=list(dims), grouper=grouper, tier=tier))
     out.append(dict(leg="dataset", tier=tier))
     out.append(dict(leg="multi", tier=tier))
+    for dims in (("x", "y"), ("y", "x"), ("t", "x", "y"), ("x", "t", "y"), ("y", "x", "t")):
+        out.append(dict(leg="square", dims=list(dims), tier=tier))
     return out
 
 
@@ -158,6 +161,9 @@ def native(obj, by, func, skipna, min_count, keep_attrs, dim=None):
     import xarray as xr
 
     kw = {}
+    if func in QS:
+        kw["q"] = QS[func]
+        func = "quantile"
     if func not in ("count", "first", "last", "any", "all"):
         kw["skipna"] = skipna
     elif func in ("first", "last") and skipna is not None:
@@ -186,6 +192,8 @@ def run_one(res, obj, by, func, skipna, min_count, keep_attrs, case, tags, size,
         res.outcomes[f"native-refuses:{type(e).__name__}"] += 1
         return
     kw = dict(func=func, skipna=skipna, keep_attrs=keep_attrs)
+    if func in QS:
+        kw.update(func="quantile", q=QS[func])
     if dim is not None:
         kw["dim"] = dim
     if min_count is not None:
@@ -250,6 +258,8 @@ def run_shard(shard):
         res.sample(dict(leg="dataarray", dims=list(dims), grouper=grouper, funcs=FUNCS, skipna=[None, True, False], chunked=[False, True]))
     elif shard["leg"] == "multi":
         run_multi(res)
+    elif shard["leg"] == "square":
+        run_square(res, tuple(shard["dims"]))
     else:
         for chunked in (False, True):
             a = make_da(("x", "y"), chunked)
@@ -266,6 +276,81 @@ def run_shard(shard):
                             res.nontrivial += 1
         res.sample(dict(leg="dataset", variables=dict(a=["x", "y"], b=["x"], c=["y"], d=["t"]), groupers=["coord1d", "coord1d_nan", "ext"]))
     return res
+
+
+def run_square(res, dims):
+    """A square (2 x 2) two-dimensional grouper stored as (x, y) or as (y, x), on objects of every dim order, reduced over
+    x, y, both (in either order) or by default: shapes cannot tell the grouper's dims apart here, only their names can.
+    Oracles: native xarray wherever it accepts the call; always the values of a plain NumPy model on the named dims."""
+    import xarray as xr
+    from flox.xarray import xarray_reduce
+
+    shape = tuple(2 for _ in dims)
+    n = int(np.prod(shape))
+    vals = (np.arange(n, dtype=float) ** 2 * 1.5 - 4.0).reshape(shape)
+    vals.flat[1] = NAN
+    lab_xy = np.array([[0, 1], [0, 0]])  # not symmetric
+    for chunked in (False, True):
+        base = xr.DataArray(vals, dims=dims, name="v").assign_coords(x=("x", np.array([10, 20])), y=("y", np.array(["a", "b"])))
+        if chunked:
+            base = base.chunk({d: 1 if d == "x" else -1 for d in dims})
+        for gorder in (("x", "y"), ("y", "x")):
+            obj = base.assign_coords(lab=(gorder, lab_xy if gorder == ("x", "y") else lab_xy.T))
+            labb = obj["lab"].broadcast_like(base).transpose(*dims).values
+            for func in ("sum", "max", "count"):
+                for dim in (None, "x", "y", ("x", "y"), ("y", "x"), ...):
+                    dname = "..." if dim is ... else (list(dim) if isinstance(dim, tuple) else dim)
+                    case = dict(leg="square", dims=list(dims), grouper_dims=list(gorder), func=func, dim=dname, chunked=chunked)
+                    tags = dict(leg2="square", func=func, chunked=chunked, dim=str(dname), grouper_dims="".join(gorder))
+                    # native xarray where it accepts the call
+                    run_one(res, obj, "lab", func, None, None, True, case, tags, 40, dim=dim)
+                    res.nontrivial += 1
+                    # NumPy model on the named dims
+                    reduced = ("x", "y") if dim in (None, ...) else ((dim,) if isinstance(dim, str) else tuple(dim))
+                    if dim is ...:
+                        reduced = tuple(dims)
+                    kept = [d for d in dims if d not in reduced]
+                    try:
+                        with warnings.catch_warnings(), np.errstate(all="ignore"):
+                            warnings.simplefilter("ignore")
+                            kw = dict(func=func)
+                            if dim is not None:
+                                kw["dim"] = dim
+                            got = xarray_reduce(obj, "lab", **kw)
+                            if hasattr(got, "compute"):
+                                got = got.compute(scheduler="sync")
+                    except e1.REFUSALS:
+                        continue
+                    except Exception:
+                        continue  # reported by run_one above
+                    res.compared += 1
+                    probs = []
+                    if set(got.dims) != set(kept) | {"lab"}:
+                        probs.append(f"dims {got.dims} are not {kept} + ['lab']")
+                    else:
+                        g = got.transpose(*kept, "lab")
+                        for idx in np.ndindex(*[2 for _ in kept]):
+                            sel = [slice(None)] * len(dims)
+                            for d, i in zip(kept, idx):
+                                sel[dims.index(d)] = i
+                            v = vals[tuple(sel)].reshape(-1)
+                            lb = labb[tuple(sel)].reshape(-1)
+                            for j, lab in enumerate(np.asarray(g["lab"].values).tolist()):
+                                m = v[lb == lab]
+                                m = m[~np.isnan(m)]
+                                if func != "count" and len(m) == 0:
+                                    continue  # fill conventions are C05's
+                                want = dict(sum=np.sum, max=np.max, count=len)[func](m)
+                                have = float(np.asarray(g.values)[idx + (j,)])
+                                if not np.isclose(have, float(want)):
+                                    probs.append(f"kept index {dict(zip(kept, idx))}, label {lab}: {have} != {float(want)} (members {m.tolist()})")
+                    if probs:
+                        res.outcomes["mismatch"] += 1
+                        res.violate("xarray-square-differs", case, dict(problems=probs[:3]), "the reduction of the elements carrying each label, slice by slice over the kept dims",
+                                    tags=dict(tags, kind="model"), size=41)
+                    else:
+                        res.outcomes["ok-model"] += 1
+    res.sample(dict(leg="square", dims=list(dims), grouper="2x2 labels [[0,1],[0,0]] stored as (x,y) and as (y,x)", dim=["None", "x", "y", "(x,y)", "(y,x)", "..."]))
 
 
 def run_multi(res):
